@@ -219,7 +219,8 @@ Proof.
   - (* ANewChan *) inv H. eapply step_new_chan; eauto.
   - (* AUpdStore *) inv H. eapply step_upd_store; eauto. apply N.leb_le. exact Am.
   - (* AUpdEnq *)
-    destruct (has (KUpd p) (calls s) && can_enq s); inv H. apply (step_enq s I (KUpd p)); auto.
+    destruct (upd_enq p s) as [s1|] eqn:E; inv H. apply upd_enq_spec in E; subst. apply (step_enq s I (KUpd p)); auto.
+  - (* ABlocked *) destruct (has (KUpd p) (calls s) && negb (can_enq s) && upd_blocking); inv H. exact I.
   - (* ASubReg *) inv H. eapply step_sub_reg; eauto.
   - (* ASubMark *)
     destruct (has (KSub c p false) (calls s)); inv H. rewrite mark_late_eq.
